@@ -173,6 +173,7 @@ impl<'input> Parser<'input> {
     /// like [`@requires`](https://www.apollographql.com/docs/federation/federated-types/federated-directives/#requires).
     pub fn parse_selection_set(mut self) -> SyntaxTree<SelectionSet> {
         grammar::selection::field_set(&mut self);
+        self.expect_end_of_input("expected the end of input after the selection set");
 
         let builder = Rc::try_unwrap(self.builder)
             .expect("More than one reference to builder left")
@@ -197,6 +198,7 @@ impl<'input> Parser<'input> {
     /// of some directives like [`@field`](https://specs.apollo.dev/join/v0.3/#@field).
     pub fn parse_type(mut self) -> SyntaxTree<Type> {
         grammar::ty::standalone_ty(&mut self);
+        self.expect_end_of_input("expected the end of input after the type");
 
         let builder = Rc::try_unwrap(self.builder)
             .expect("More than one reference to builder left")
@@ -210,6 +212,15 @@ impl<'input> Parser<'input> {
             | syntax_tree::SyntaxTreeWrapper::Document(_) => {
                 unreachable!("parse_type constructor can only construct a type")
             }
+        }
+    }
+
+    /// For the standalone entry points: the whole input must be the one construct that was just
+    /// parsed, so any token left other than ignored ones is a syntax error.
+    fn expect_end_of_input(&mut self, message: &str) {
+        self.skip_ignored();
+        if !matches!(self.peek(), None | Some(TokenKind::Eof)) {
+            self.err(message);
         }
     }
 
